@@ -131,7 +131,7 @@ fn cmp_ops<L: PartialOrd<R> + PartialEq<R>, R, W: Ord>(l: &L, r: &R, wl: W, wr: 
 
 /// Same-type pairs additionally have the total order's methods and a hash that respects equality.
 fn ord_ops<T: Ord + Copy + std::hash::Hash, W: Ord + Copy>(l: T, r: T, wl: W, wr: W, back: impl Fn(T) -> W) -> Option<&'static str> {
-    use std::hash::{Hash, Hasher};
+    use std::hash::Hasher;
     if let Some(op) = cmp_ops(&l, &r, wl, wr) {
         return Some(op);
     }
